@@ -484,6 +484,13 @@ func (fc *FnCtx) mergeVal(c string, a, b Val) Val {
 				nb := *a.A
 				nb.Base = "0"
 				b.A = &nb
+			} else if a.A.Alt == nil && b.A.T != nil && a.A.T != nil && types.Identical(a.A.T, b.A.T) {
+				// e.g. a pointer to a fresh object merged with the address of a global:
+				// kept as a conditional address
+				na := *a.A
+				na.Alt, na.AltCond = b.A, c
+				out.A = &na
+				return out
 			} else {
 				unsup("merge of different address kinds")
 			}
